@@ -13,7 +13,7 @@ META = {
              'kind, sorted (dtype+order, layout, cast), window?, outcome); non-trivial when a buffer is a view, '
              'read-only, big-endian, cast, or the write failed'),
     'required_obs': {'quick': ['digest-compared', 'src-inline', 'src-dict', 'src-struct', 'src-hdf5', 'big-endian',
-                               'cast', 'view', 'readonly', 'failed-write', 'h5-open-audited', 'readonly-differential', 'native-zero-copy', 'dict-plus-inline', 'hc-write-ok', 'cast-of-out-of-range-values']},
+                               'cast', 'view', 'readonly', 'failed-write', 'h5-open-audited', 'readonly-differential', 'native-zero-copy', 'dict-plus-inline', 'hc-write-ok', 'cast-of-out-of-range-values', 'special-values-in-index']},
     'assumptions': ['sys.addaudithook sees Python-level open(); h5py opens are observed through the h5py.File mode '
                     'argument recorded by a wrapper on h5py.File.__init__ and, in the thorough tier, through strace'],
 }
@@ -28,6 +28,10 @@ def cases(tier, seed):
     # native, contiguous, un-cast data: the place where a zero-copy path (and so an in-place edit) can live
     for k in range(120 if tier == 'quick' else 3000):
         yield {'stratum': 'native-zero-copy', 'index': k, 'kind': 'native'}
+    # INDEXED frames whose index channel holds special values (both zeros with the minimum / maximum at zero, NaN, infinities,
+    # repeated values): what the library works out about the index (bounds, spacing, direction) it works out on a copy
+    for k in range(80 if tier == 'quick' else 1500):
+        yield {'stratum': 'special-values-in-index', 'index': k, 'kind': 'index-special'}
 
 
 _h5_modes = []
@@ -79,6 +83,45 @@ def run_case(case):
             sp['write']['perm_seed'] = None
             sp['write']['hc'] = True
             bump('written-in-hc-mode')
+    elif case['kind'] == 'index-special':
+        N = r.choice([2, 3, 5, 8, 17])
+        form = r.choice(['negated-depths', 'negated-depths', 'zeros-mixed', 'zero-first', 'zero-last', 'nan-inside', 'inf-ends', 'constant'])
+        if form == 'negated-depths':
+            vals = [-(j * 0.5) for j in range(N)]                    # -0.0, -0.5, -1.0, ...: the maximum is a negative zero
+            if r.random() < 0.5:
+                vals.reverse()
+        elif form == 'zeros-mixed':
+            vals = [r.choice([0.0, -0.0]) for _ in range(N)]
+            vals[r.randrange(N)] = -0.0
+        elif form == 'zero-first':
+            vals = [-0.0] + [float(j) for j in range(1, N)]
+        elif form == 'zero-last':
+            vals = [float(-j) for j in range(N - 1, 0, -1)] + [-0.0]
+        elif form == 'nan-inside':
+            vals = [float(j) for j in range(N)]
+            vals[r.randrange(N)] = float('nan')
+        elif form == 'inf-ends':
+            vals = [float('-inf')] + [float(j) for j in range(1, N - 1)] + [float('inf')] if N > 2 else [float('-inf'), float('inf')]
+        else:
+            vals = [-0.0] * N
+        dt = r.choice(['<f8', '<f4', '>f8', '>f4'])
+        hc = form in ('negated-depths', 'zero-first') and r.random() < 0.3
+        sp = gen.base_spec(r.choice([256, 8192]))
+        sp['ops'].append(gen.origin_op())
+        sp['ops'].append(gen.channel_op('DEPTH', dt, (N,), fill={'kind': 'seq', 'values': vals}, layout=r.choice(['C', 'C', 'view', 'strided'])))
+        sp['ops'].append(gen.channel_op('Y', r.choice(['<f8', '<u2']), (N,), fill={'kind': 'pos', 'tag': 2}))
+        if r.random() < 0.4:
+            sp['ops'].append(gen.channel_op('Z', '<u1', (N, 3), fill={'kind': 'pos', 'tag': 3}))
+        chans_ = [i for i, o in enumerate(sp['ops']) if o['op'] == 'channel']
+        sp['ops'].append(gen.frame_op('FR', chans_, index_type='BOREHOLE-DEPTH'))
+        sp['write'] = {'source': r.choice(['inline', 'dict', 'struct', 'hdf5']), 'output_chunk_size': 2 ** 16,
+                       'input_chunk_size': r.choice(gen.chunk_choices(N)), 'perm_seed': None, 'extra': 0}
+        if N > 2 and r.random() < 0.3:
+            sp['write'].update({'from_idx': 0, 'to_idx': N - 1} if r.random() < 0.5 else {'from_idx': 1, 'to_idx': None})
+        if hc:
+            sp['write']['hc'] = True     # (a non-uniform index is refused there: a failing write after the index was looked at)
+        bump('special-values-in-index')
+        bump('index-form-' + form)
     else:
         sp = gen.frame_spec(r, casts=r.random() < 0.4, window=r.random() < 0.4, nframes=r.choice([1, 1, 2]),
                             mixed_inline=r.random() < 0.5)
